@@ -103,8 +103,19 @@ def relJudge : List String → Option String
     pure (if a && b then "ok" else "viol " ++ ",".intercalate why)
   | _ => none
 
+def showKeyType : KeyType → String
+  | .rsa => "rsa" | .p256 => "p256" | .p384 => "p384" | .p521 => "p521" | .ed25519 => "ed25519"
+  | .unsupported => "unsupported"
+
+def showKeys (l : List Key) : String :=
+  if l.isEmpty then "-" else ",".intercalate (l.map fun k => s!"{k.id}:{showKeyType k.ty}")
+
+def cfgOfKeys (keys : List Key) : Cfg :=
+  { dep := { issuer := [], trusted := keys }, clients := [], s256 := fun _ => [], openSealed := fun _ _ _ => none }
+
 def model (fs : List String) : String :=
   match fs with
+  | ["jw", trusted] => ((parseKeys trusted).map fun ks => showKeys (published (cfgOfKeys ks))).getD "bad-op"
   | "az" :: rest => (azModel rest).getD "bad-op"
   | ["ui", ns, iss, keys, alg, by_, sig, wire] =>
     (do
@@ -127,6 +138,16 @@ def model (fs : List String) : String :=
 def judge (fs : List String) : String :=
   match fs with
   | "rel" :: rest => (relJudge rest).getD "bad-op"
+  | ["jwv", pub, alg, by_] =>
+    -- a released token (header alg, signing key) against the key set the implementation published
+    (do
+      let keys ← parseKeys pub
+      let alg ← parseAlg alg
+      let signedBy ← (if by_ == "-" then some none else by_.toNat?.map some)
+      let a : Artefact := { claims := Wire.empty, alg := alg, signedBy := signedBy, sigAlg := alg }
+      pure (if rpVerifies keys a then "ok"
+            else if keys.any (fun k => signedBy == some k.id) then "viol signing-key-published-with-another-type"
+            else "viol signing-key-not-in-published-jwks")).getD "bad-op"
   | _ =>
   match parseTok fs with
   | some (k, [dec]) =>
